@@ -5,9 +5,10 @@ package main
 // table; requests are then dispatched over it following mux's documented matching rules.
 
 import (
-	"net/url"
 	"context"
+	"crypto/tls"
 	"errors"
+	"net/url"
 	"log"
 	"net/http"
 	"strconv"
@@ -25,6 +26,7 @@ import (
 	"github.com/gorilla/mux"
 	goidentity "github.com/jcmturner/goidentity/v6"
 	"github.com/patrickmn/go-cache"
+	"golang.org/x/crypto/acme/autocert"
 	"golang.org/x/oauth2"
 )
 
@@ -60,6 +62,12 @@ import (
 //vp:all stub (*github.com/bolkedebruin/rdpgw/cmd/rdpgw/web.NTLMAuthHandler).NTLMAuth = vpNTLMWrap
 //vp:all stub (*github.com/bolkedebruin/rdpgw/cmd/rdpgw/web.BasicAuthHandler).BasicAuth = vpBasicWrap
 //vp:all stub (*net/http.Server).ListenAndServe = vpListenAndServe
+//vp:all stub net/http.ListenAndServe = vpHTTPListenAndServe
+//vp:all stub net/http.HandleFunc = vpHTTPHandleFunc
+//vp:all stub crypto/tls.LoadX509KeyPair = vpLoadX509KeyPair
+//vp:all stub os.Getenv = vpGetenv
+//vp:all stub golang.org/x/crypto/acme/autocert.HostWhitelist = vpHostWhitelist
+//vp:all stub (*golang.org/x/crypto/acme/autocert.Manager).HTTPHandler = vpAcmeHTTPHandler
 //vp:all stub (*net/http.Server).ListenAndServeTLS = vpListenAndServeTLS
 //vp:all stub log.Fatal = vpFatal
 //vp:all stub log.Fatalf = vpFatalf
@@ -199,14 +207,36 @@ func vpBasicWrap(h *web.BasicAuthHandler, next http.HandlerFunc) http.HandlerFun
 	}
 }
 
+// how the gateway endpoint ended up being served
+var vpServedPlain, vpServedTLS int
+var vpAcmeHosts []string
+
 func vpListenAndServe(s *http.Server) error {
 	vpListened++
+	vpServedPlain++
 	return errors.New("vp: stop here")
 }
 func vpListenAndServeTLS(s *http.Server, c, k string) error {
 	vpListened++
+	vpServedTLS++
 	return errors.New("vp: stop here")
 }
+
+// the environment of the TLS set-up in main()
+func vpHTTPListenAndServe(addr string, h http.Handler) error { return errors.New("vp: acme listener not started") }
+func vpHTTPHandleFunc(pattern string, h func(http.ResponseWriter, *http.Request)) {}
+func vpLoadX509KeyPair(certFile, keyFile string) (tls.Certificate, error) {
+	if vpBool("certificate-files-unreadable") {
+		return tls.Certificate{}, errors.New("vp: open: no such file")
+	}
+	return tls.Certificate{}, nil
+}
+func vpGetenv(k string) string { return "" }
+func vpHostWhitelist(hosts ...string) autocert.HostPolicy {
+	vpAcmeHosts = append(vpAcmeHosts, hosts...)
+	return func(ctx context.Context, host string) error { return nil }
+}
+func vpAcmeHTTPHandler(m *autocert.Manager, fallback http.Handler) http.Handler { return nil }
 
 // The tunnel handler (symbolic side): same observable as the real one for the probe request — it asks
 // the request's identity for its remote address — and it remembers the Gateway it is bound to.
@@ -455,5 +485,54 @@ func VP_C13_verifier_config() {
 		got := c.Now()
 		after := time.Now()
 		vpAssert(!got.Before(before) && !got.After(after), "id-token-expiry-is-checked-against-the-current-time")
+	}
+}
+
+
+//vp:property C18
+//vp:bounds main() run up to the point where the gateway endpoint is served, for every configuration config.Load lets start as far as TLS is concerned: tls "disable" (then no local/basic authentication) or left automatic; certificate and key file configured or not (and readable or not); gateway address with a host name or empty; authentication mechanisms openid / local / basic / ntlm in any startable combination
+//vp:assume config.Load's refusals are the subject of VP_C18_consistency (here: local or basic authentication never comes with tls "disable"); acme, the key-pair loader and the HTTP servers are stubs
+//vp:reach plain tls
+func VP_C18_serving() {
+	vpRoutes, vpRootR, vpUsed, vpTrace, vpListened, vpGW = nil, nil, 0, nil, 0, nil
+	vpServedPlain, vpServedTLS, vpAcmeHosts = 0, 0, nil
+	names := []string{"openid", "local", "basic", "ntlm"}
+	on := map[string]bool{}
+	var authn []string
+	for i, n := range names {
+		if vpBool("auth-" + vpItoa(i)) {
+			on[n] = true
+			authn = append(authn, n)
+		}
+	}
+	tlsDisabled := vpBool("tls-disabled-in-the-configuration")
+	vpAssume(!(tlsDisabled && (on["local"] || on["basic"]))) // refused by config.Load
+	vpConf = config.Configuration{}
+	vpConf.Server.Authentication = authn
+	if tlsDisabled {
+		vpConf.Server.Tls = "disable"
+	} else {
+		vpConf.Server.Tls = []string{"", "auto"}[vpIntRange("tls-setting", 0, 1)]
+	}
+	if vpBool("certificate-configured") {
+		vpConf.Server.CertFile, vpConf.Server.KeyFile = "/etc/rdpgw/cert.pem", "/etc/rdpgw/key.pem"
+	}
+	if vpBool("gateway-address-configured") {
+		vpConf.Server.GatewayAddress = "//gw.example"
+	}
+	vpConf.Server.Hosts = []string{"h1:3389"}
+	vpConf.Server.HostSelection = "roundrobin"
+	vpConf.Caps.TokenAuth = on["openid"]
+	fatal := vpCatchFatal(main)
+	vpAssert(fatal, "main-ends-at-the-stubbed-listener-or-refuses-to-start")
+	vpObserve("plain", uint64(vpServedPlain))
+	vpObserve("tls", uint64(vpServedTLS))
+	if vpServedPlain > 0 {
+		vpReach("plain")
+		vpAssert(tlsDisabled, "the-gateway-endpoint-is-served-without-tls-only-when-tls-was-disabled-in-the-configuration")
+		vpAssert(!on["local"] && !on["basic"], "local-authentication-is-never-served-without-tls")
+	}
+	if vpServedTLS > 0 {
+		vpReach("tls")
 	}
 }
